@@ -523,6 +523,40 @@ where
         });
         push(out, format!("{name}-L{l}-wrong-old-value"), "update_signature(wrong old) then verify(new vector)", vec![], r, "expect-err");
     }
+    // values related by prefix / length / emptiness: each single update must give a signature valid for the new vector only
+    let pairs: Vec<(&str, Vec<u8>, Vec<u8>)> = vec![
+        ("truncate", b"attribute-value".to_vec(), b"attribute".to_vec()),
+        ("append", b"attribute".to_vec(), b"attribute-value".to_vec()),
+        ("to-empty", b"attribute".to_vec(), vec![]),
+        ("from-empty", vec![], b"attribute".to_vec()),
+        ("trailing-zero", b"ab".to_vec(), b"ab\0".to_vec()),
+        ("same-length", b"aaaa".to_vec(), b"aaab".to_vec()),
+        ("long", vec![7u8; 100], vec![7u8; 1000]),
+    ];
+    for (pn, oldv, newv) in pairs {
+        for (l, i) in [(1usize, 0usize), (3, 1)] {
+            let mut cur = msgs(l);
+            cur[i] = oldv.clone();
+            let sig = Sig::<CS>::sign(Some(&cur), kp.private_key(), kp.public_key(), Some(HEADER)).unwrap();
+            let (cur2, oldv2, newv2) = (cur.clone(), oldv.clone(), newv.clone());
+            let (pk, sk) = (kp.public_key().clone(), kp.private_key().clone());
+            let outcome = guard(move || match sig.update_signature(&sk, &oldv2, &newv2, i, l) {
+                Ok(s2) => {
+                    let mut want = cur2.clone();
+                    want[i] = newv2.clone();
+                    if let Err(e) = s2.verify(&pk, Some(&want), Some(HEADER)) {
+                        return format!("err:verify-current:{e:?}");
+                    }
+                    if s2.verify(&pk, Some(&cur2), Some(HEADER)).is_ok() {
+                        return "err:verifies-for-earlier-vector".to_string();
+                    }
+                    "ok:accepted".to_string()
+                }
+                Err(e) => format!("err:update:{e:?}"),
+            });
+            push(out, format!("{name}-L{l}-update-{pn}"), "update_signature(old, new related by prefix/length) then verify", vec![hex::encode(&oldv), hex::encode(&newv)], outcome, "expect-ok");
+        }
+    }
 }
 
 /// C07: blinding scalars recomputed by a party who knows the witness (e~ = e^ - e*c, m~_j = m^_j - m_j*c,
@@ -547,8 +581,10 @@ where
             problems.push(format!("{what} repeats an earlier point/scalar"));
         }
     };
-    for l in [3usize, 20, 40] {
-        let m = msgs(l);
+    // distinct values, and a vector in which several hidden attributes hold the SAME value (their blindings must still differ)
+    let dup: Vec<Vec<u8>> = vec![b"false".to_vec(), b"x".to_vec(), b"false".to_vec(), b"false".to_vec(), vec![], vec![], b"x".to_vec()];
+    for m in [msgs(3), msgs(20), msgs(40), dup] {
+        let l = m.len();
         let ms = BBSplusMessage::messages_to_scalar::<CS>(&m, CS::API_ID).unwrap();
         let sig = Sig::<CS>::sign(Some(&m), kp.private_key(), kp.public_key(), Some(HEADER)).unwrap();
         let e = sc(&sig.to_bytes()[48..80]);
@@ -573,8 +609,9 @@ where
             }
         }
     }
-    for mm in [2usize, 20] {
-        let cm = msgs(mm);
+    let dupc: Vec<Vec<u8>> = vec![b"same".to_vec(), b"same".to_vec(), vec![], vec![], b"same".to_vec()];
+    for cm in [msgs(2), msgs(20), dupc] {
+        let mm = cm.len();
         let cms = BBSplusMessage::messages_to_scalar::<CS>(&cm, CS::API_ID_BLIND).unwrap();
         for run in 0..2 {
             let (c, b) = Com::<CS>::commit(Some(&cm)).unwrap();
@@ -642,7 +679,15 @@ where
     let n = if thorough { 40 } else { 12 };
     let enc = |g: &Generators| -> Vec<Vec<u8>> { g.values.iter().map(|p| p.to_affine().to_compressed().to_vec()).collect() };
     let blind_prefixed = [b"BLIND_".as_slice(), CS::API_ID_BLIND].concat();
-    let ids: Vec<(&str, Option<Vec<u8>>)> = vec![("none", None), ("empty", Some(vec![])), ("API_ID", Some(CS::API_ID.to_vec())), ("API_ID_BLIND", Some(CS::API_ID_BLIND.to_vec())), ("BLIND_||API_ID_BLIND", Some(blind_prefixed))];
+    let mut ids: Vec<(&str, Option<Vec<u8>>)> = vec![("none", None), ("empty", Some(vec![])), ("API_ID", Some(CS::API_ID.to_vec())), ("API_ID_BLIND", Some(CS::API_ID_BLIND.to_vec())), ("BLIND_||API_ID_BLIND", Some(blind_prefixed))];
+    // long api ids that differ only in their last octets (around the 255-octet DST limit of expand_message and well beyond it)
+    let long = |n: usize, tail: &[u8]| -> Vec<u8> { let mut v = vec![b'x'; n]; v.extend_from_slice(tail); v };
+    ids.push(("long-230-A", Some(long(230, b"_TENANT_A_"))));
+    ids.push(("long-230-B", Some(long(230, b"_TENANT_B_"))));
+    ids.push(("long-300-A", Some(long(300, b"_TENANT_A_"))));
+    ids.push(("long-300-B", Some(long(300, b"_TENANT_B_"))));
+    ids.push(("long-1000-A", Some(long(1000, b"A"))));
+    ids.push(("long-1000-B", Some(long(1000, b"B"))));
     let mut sets: Vec<(String, Vec<Vec<u8>>)> = vec![];
     for (idn, id) in ids.iter() {
         let full = Generators::create::<CS>(n, id.as_deref());
